@@ -190,6 +190,9 @@ func (r *runner) run(root string) int {
 				continue
 			}
 			raceSeen[rr.key] = true
+			if batches[i].phase != nil && batches[i].phase.RaceInfoOnly {
+				continue
+			}
 			if !rr.genql {
 				inconcl = append(inconcl, "race report without genql frames (harness bug?): "+firstLines(rr.text, 12))
 				continue
